@@ -4,9 +4,7 @@
 //!   vp worker <ID> --tier T --seed S --shard I --of N --out FILE   (internal)
 //!   vp replay <ID> <file>                      re-run one saved case
 //!   vp list                                    list property ids
-mod engine;
-mod props;
-mod refimpl;
+use vp_harness::{engine, props};
 
 use std::path::Path;
 use std::process::{Command, Stdio};
@@ -136,6 +134,37 @@ fn main() {
             std::process::exit(replay_child(&id, &file));
         }
         "c19case" => props::c19::child_main(),
+        "fuzz-seeds" => {
+            // vp fuzz-seeds <target> <dir>: writes the starting corpus of a campaign.
+            let target = args.get(2).cloned().unwrap_or_else(|| usage());
+            let dir = args.get(3).cloned().unwrap_or_else(|| usage());
+            let _ = std::fs::create_dir_all(&dir);
+            for (i, seed) in vp_harness::fuzzing::seeds(&target).iter().enumerate() {
+                let _ = std::fs::write(Path::new(&dir).join(format!("seed-{i:02}")), seed);
+            }
+        }
+        "fuzz-replay" => {
+            // vp fuzz-replay <target> <artifact>: runs one fuzz input through the same oracles.
+            let target = args.get(2).cloned().unwrap_or_else(|| usage());
+            let file = args.get(3).cloned().unwrap_or_else(|| usage());
+            let Ok(data) = std::fs::read(&file) else {
+                eprintln!("cannot read {file}");
+                std::process::exit(2);
+            };
+            let r = engine::panics::catch(|| vp_harness::fuzzing::run(&target, &data));
+            let (prop, fail) = match r {
+                Ok((_, Ok(_))) => {
+                    println!("replay {file}: case passes");
+                    std::process::exit(0);
+                }
+                Ok((prop, Err(f))) => (prop.to_string(), f),
+                Err(p) => (vp_harness::fuzzing::properties_of(&target).first().copied().unwrap_or("?").to_string(), engine::Fail::new(format!("panic:{}", p.signature()), p.describe())),
+            };
+            println!("VIOLATION property={prop} replay={file}");
+            println!("  signature: {}", fail.sig);
+            println!("  {}", fail.msg);
+            std::process::exit(1);
+        }
         _ => usage(),
     }
 }
